@@ -227,7 +227,7 @@ class AbstractBlob:
         self.writers[(peer_address, peer_port)] = writer
 
         def remove_writer(_):
-            if (peer_address, peer_port) in self.writers:
+            if self.writers.get((peer_address, peer_port)) is writer:
                 del self.writers[(peer_address, peer_port)]
 
         fut.add_done_callback(remove_writer)
